@@ -55,6 +55,8 @@ func runC01(c *Ctx) {
 			}
 			ruleTargetPathsByComponent(c, "PATHS-BY-COMPONENT", tp)
 			ruleWithFlagNoop(c, "WITH-FLAG-NOOP", tp, 1)
+			c01TargetWalkTargeted(c)
+			c01ExcludesKeptWhole(c)
 		}
 		if q := c.P.Pkg("private/bufpkg/bufmodule"); q != nil {
 			c01RetargetIndependent(c, q)
